@@ -78,6 +78,15 @@ let gedge_full s =
 let graph s = let ns = rep s gnode in let es = rep s gedge_full in let r = nextn s in
   { g_nodes = ns; g_edges = es; g_root = r }
 
+let sev s = match next s with
+  | 0 -> SEncode (rep s (fun s -> let k = next s in if k = 0 then None else Some (n_of_int (k - 1))))
+  | 1 -> SSoft (nextn s)
+  | _ -> STrail (event s)
+let pcall s = match next s with
+  | 0 -> CCands (nextn s) | 1 -> CDeps (nextn s)
+  | 2 -> let v = nextn s in let i = next s = 1 in CFilter (v, i)
+  | _ -> CSort (nlist s)
+
 let b x = if x then "1" else "0"
 let plist l = String.concat " " (List.map (fun x -> string_of_int (int_of_n x)) l)
 let polist = function None -> "none" | Some l -> "some " ^ plist l
@@ -138,6 +147,16 @@ let () =
               (* log core-ids -> core clause set (with the root) is unsatisfiable *)
               let lg = log s in let core = nlist s in
               b (check_core lg.l_db core)
+            | "enc" ->
+              (* U P sevs db calls -> clauses-equal calls-equal [model sizes] *)
+              let u = universe s in let p = problem s in
+              let evs = rep s sev in let db = rep s clause in let calls = rep s pcall in
+              let up = table_provider u in
+              let fuel = nat_of_int 100000 in
+              let (c1, c2) = check_encoder up p fuel evs db calls in
+              (match enc_solve up p fuel (estate0 cache0) [] evs with
+               | Some st -> Printf.sprintf "%s %s %d %d" (b c1) (b c2) (List.length st.e_db) (List.length st.e_calls)
+               | None -> "0 0 -1 -1")
             | "logsat" ->
               (* U P log sol -> db-ok run-ok sat-ok [first bad clause index | -] *)
               let u = universe s in let p = problem s in let lg = log s in let sol = nlist s in
